@@ -36,7 +36,11 @@ LocalizeGood(e) ==
         e.out = Pick(e.interp, LAMBDA x : x.f = "kul" /\ x.alg = AlgOf(e.alg) /\ x.master = e.master /\ x.engine = e.engine)
 
 (*  UserKeys aalg kt akey pcipher pkey outa outp exc : what gufo.snmp.user.User hands to the socket for the keys the caller gave *)
+(* aalg_out / palg_out (when recorded): the algorithm codes the User hands to the socket.  A key object that was configured means
+   that security level is ON, whatever its material looks like (an empty key is a key: padded, or refused - never "no key") *)
+Has(e, f) == f \in DOMAIN e
 UserKeysGood(e) ==
+  /\ (Accepted(e) /\ Has(e, "palg_out")) => (e.aalg_out = e.aalg /\ e.palg_out = e.pcipher)
   /\ Accepted(e) => /\ UserKeyOutOK(e.kt, e.akey, e.outa, e.aalg)
                     /\ e.pcipher # 0 => UserKeyOutOK(e.kt, e.pkey, e.outp, e.aalg)
   /\ (e.kt = 0 /\ Len(e.akey) > 0 /\ (e.pcipher # 0 => Len(e.pkey) > 0)) => Accepted(e)       \* non-empty passwords are never refused
